@@ -675,6 +675,12 @@ def dom_corpus(tier: str, seed: int):
                ("Iter", None, None), ("EIter", None, None), ("Self_", None, None), ("core", None, None), ("str", "50", None),
                ("Error", None, None), ("Item", None, None), ("Output", None, None), ("Target", None, None), ("Owned", None, None)]
         add(make_decl(r, odd, shape="dom_odd_idents"), {"feat": ["odd_idents", "implicit_after_explicit"]}, modes_i=ri)
+        # 4d. rename strings in other literal spellings: raw strings, escapes
+        dd = make_decl(r, [("A", None, "raw\\n"), ("B", None, "q\"uote"), ("C", None, "A"), ("D", None, "tab\there"), ("F", None, "h#")],
+                       shape="dom_rename_spellings")
+        for v, txt in zip(dd.variants, ['r"raw\\n"', 'r#"q"uote"#', '"\\u{41}"', '"tab\\x09here"', 'r##"h#"##']):
+            v.rename_text = txt
+        add(dd, {"feat": ["rename_spelling"]}, modes_i=ri)
         # 4c. enums named like prelude / core items, repr given through cfg_attr and before the derive
         for ename in (["Option", "Copy"] if tier == "quick" else ["Option", "Result", "Iterator", "Copy", "Some", "e", "Ordering", "String"]):
             dd = make_decl(r, [("A", None, None), ("B", "5", "b"), ("C", None, None), ("D", "2", None)], shape="dom_enum_named_" + ename)
